@@ -5,6 +5,8 @@ From Goit Require Import Bytes Obj Reflog ReflogFacts.
 From Goit Require Import World Repo BranchFacts JournalFacts.
 From Goit Require Import Bridge.
 From Goit Require Import ResetFacts.
+From Goit Require Import Inv.
+From Goit Require JournalReachFacts.
 Import ListNotations.
 
 (* T0 (tie to the source): every regexp literal of the current Go source denotes
@@ -114,3 +116,29 @@ Print Assumptions C11_head_entry.
 Print Assumptions C11_reflog_total.
 Print Assumptions C11_source_patterns_are_the_models.
 Print Assumptions C11_journal_reads_back_on_every_reachable_repository.
+
+(* the same three on every reachable repository: the journal invariant and the cleanliness of an
+   ACCEPTED command's names are consequences of reachability, not hypotheses *)
+Theorem C11_reflog_extends_on_every_reachable_repository : forall e c w w' out tr,
+  Reachable w -> step (ACmd e c) w = (w', OOk out, tr) ->
+  exists rs, parse_reflog (hlog_bytes w) = Some rs /\
+             parse_reflog (hlog_bytes w') = Some (rs ++ journal_delta c w w').
+Proof. exact JournalReachFacts.reflog_extends_reachable. Qed.
+
+Theorem C11_head_entry_on_every_reachable_repository : forall e c w w' out tr ty,
+  Reachable w -> step (ACmd e c) w = (w', OOk out, tr) -> journal_kind c = Some ty ->
+  exists rs' r, parse_reflog (hlog_bytes w') = Some rs' /\ get_record rs' 0 = Some r /\ r_type r = ty /\
+    r_id r = id_back (head_id w') /\
+    nth_error (show_reflog rs') 0 = Some (short_id (r_id r), 0, ty, r_msg r).
+Proof. exact JournalReachFacts.reflog_head_entry_reachable. Qed.
+
+(* `reflog` itself: on a reachable repository whose context loads and whose journal exists it
+   succeeds, changes nothing, and prints the parsed journal, newest first, one line per record *)
+Theorem C11_reflog_succeeds : forall e w c hl,
+  Reachable w -> ctx_of w = Some c -> w_hlog w = Some hl ->
+  exists rs, parse_reflog hl = Some rs /\
+             step (ACmd e CReflog) w = (w, OOk (map reflog_line (show_reflog rs)), []).
+Proof. exact JournalReachFacts.reflog_succeeds_reachable'. Qed.
+Print Assumptions C11_reflog_extends_on_every_reachable_repository.
+Print Assumptions C11_head_entry_on_every_reachable_repository.
+Print Assumptions C11_reflog_succeeds.
